@@ -68,6 +68,13 @@ func c07Frames() []c06Frame {
 			c06Frame{Kind: "pbv", Payload: l, Version: "0123456789abcdef"},
 			c06Frame{Kind: "legacyv", Payload: l, Version: "7.1"})
 	}
+	// versions a parser may treat specially: a NUL in the MIDDLE of the 16 bytes, an extension of the
+	// default version, 16 bytes without any NUL, a leading NUL
+	for _, v := range []string{"1.0.0\x00rc1", "1.0.0-rc1", "\x00x", "a\x00\x00\x00\x00\x00\x00\x00\x00\x00\x00\x00\x00\x00\x00z"} {
+		for _, l := range []int{0, 1, 33} {
+			out = append(out, c06Frame{Kind: "legacyv", Payload: l, Version: gen.Bytes(v)}, c06Frame{Kind: "pbv", Payload: l, Version: gen.Bytes(v)})
+		}
+	}
 	return out
 }
 
@@ -312,7 +319,7 @@ func c07CorruptCases() []c07Corrupt {
 	var out []c07Corrupt
 	hss := []uint64{32, 0, 31, 33, 1 << 31, 1 << 63, ^uint64(0)}
 	bss := []uint64{0, 1, c07Body - 1, c07Body, c07Body + 1, 1 << 20, 1<<20 + 1, 1 << 31, 1 << 32, 1 << 40, 1 << 47, 1 << 48, 1 << 62, 1<<63 - 1, 1 << 63, 1<<63 + 1, ^uint64(0)}
-	vers := []string{"1.0.0", strings.Repeat("\xff", 16), ""}
+	vers := []string{"1.0.0", strings.Repeat("\xff", 16), "", "1.0.0\x00rc1", "\x00\x00\x00\x00\x00\x00\x00\x00\x00\x00\x00\x00\x00\x00\x00z"}
 	for _, hs := range hss {
 		for _, bs := range bss {
 			for _, v := range vers {
@@ -629,6 +636,13 @@ func c07Run(c *mc.Ctx) {
 	// large frames: bodies beyond 1 MiB (where an implementation is likely to switch from an eager
 	// to an incremental read) with cut points around every power of two and every MiB boundary
 	bigs := []c06Frame{{Kind: "legacy", Payload: 1<<20 + 1}, {Kind: "legacy", Payload: 2<<20 + 5}, {Kind: "pb", Payload: 1<<20 - 3}, {Kind: "pbv", Payload: 3 << 20, Version: "9.9.9"}}
+	// and frames whose body is exactly 2^20-1, 2^20, 2^20+1 bytes: the last eager and the first incremental read
+	for l := 1<<20 - 16; l <= 1<<20+2; l++ {
+		f := c06Frame{Kind: "legacy", Payload: l}
+		if b := len(c06Wire(f)) - 32; b >= 1<<20-1 && b <= 1<<20+1 {
+			bigs = append(bigs, f)
+		}
+	}
 	type bigJob struct {
 		f   c06Frame
 		cut int
